@@ -21,7 +21,7 @@ SLACK = 1.2
 WATCHDOG = 3.0
 
 SERVER_POINTS = ['after-banner', 'after-ehlo', 'after-mail', 'after-rcpt', 'after-noop', 'after-rset', 'mid-line', 'noop-plus-partial', 'eod-plus-partial', 'trickle-line', 'after-354',
-                 'inside-data', 'trickle-data', 'after-eod', 'auth-challenge', 'auth-initial', 'auth-second', 'starttls-handshake', 'tls-immediate', 'tls-close']
+                 'inside-data', 'trickle-data', 'after-eod', 'auth-challenge', 'auth-initial', 'auth-second', 'auth-refused-busy', 'starttls-handshake', 'tls-immediate', 'tls-close']
 RELAY_STAGES = ['connect', 'banner', 'ehlo', 'helo', 'starttls', 'starttls-handshake', 'tls-immediate', 'auth', 'mail', 'rcpt', 'data', 'eod', 'rset', 'quit', 'tls-close']
 
 
@@ -90,7 +90,7 @@ def run_server(case, model):
         def enqueue(self, env):
             return [(env, 'id')]
     point = case['point']
-    is_auth = point in ('auth-challenge', 'auth-initial', 'auth-second')
+    is_auth = point in ('auth-challenge', 'auth-initial', 'auth-second', 'auth-refused-busy')
     needs_tls = point in ('starttls-handshake', 'tls-immediate', 'tls-close') or is_auth
     edge = SmtpEdge(None, NullQueue(), auth=is_auth, context=tls_context() if needs_tls else None,
                     tls_immediately=(point == 'tls-immediate'), command_timeout=CMD_T, data_timeout=DATA_T, hostname='edge.example')
@@ -170,7 +170,21 @@ def run_server(case, model):
                             send(b'EHLO client.example\r\n'); reply(); ref['t'] = time.time()
                             # now silent: 421 after the command timeout, then the close must not wait for our close_notify for ever
                             steps = ['command:0', 'command:inf']
-                            if is_auth:
+                            if point == 'auth-refused-busy':
+                                # an AUTH exchange that ends with an error reply (cancelled), then a client that is never idle for the
+                                # length of the timeout: a NOOP every third of it for more than twice its length, and only then silence.
+                                # The session must live through the busy phase and end one command timeout after the last NOOP.
+                                send(b'AUTH LOGIN\r\n'); reply()
+                                send(b'*\r\n'); reply(); ref['t'] = time.time()
+                                busy_until = time.time() + 2.4 * CMD_T
+                                while time.time() < busy_until:
+                                    gevent.sleep(CMD_T / 3.0)
+                                    send(b'NOOP\r\n')
+                                    if reply() != 250:
+                                        break
+                                    ref['t'] = time.time()
+                                steps = ['command:0', 'command:inf']
+                            elif is_auth:
                                 # silent after the first challenge / after the challenge that follows an initial response /
                                 # after the second challenge
                                 send(b'AUTH LOGIN dXNlcg==\r\n' if point == 'auth-initial' else b'AUTH LOGIN\r\n')
